@@ -82,12 +82,26 @@ var (
 
 func newLog() logger.Logger { return quietlog.New() }
 
-type anchors struct{}
+// anchors is a trust-anchor source whose bundle changes with every reading
+// (a trailing comment carries the generation), so that "the current trust
+// anchors" at the time of a fetch are distinguishable from earlier ones.
+type anchors struct {
+	gen  *int
+	last *[]byte
+}
 
 func (anchors) GetX509BundleForTrustDomain(spiffeid.TrustDomain) (*x509bundle.Bundle, error) {
 	return nil, errors.New("unused")
 }
-func (anchors) CurrentTrustAnchors(context.Context) ([]byte, error) { return caPEM, nil }
+func (a anchors) CurrentTrustAnchors(context.Context) ([]byte, error) {
+	if a.gen == nil {
+		return caPEM, nil
+	}
+	*a.gen++
+	b := append(append([]byte{}, caPEM...), []byte(fmt.Sprintf("# trust bundle generation %d\n", *a.gen))...)
+	*a.last = b
+	return b, nil
+}
 func (anchors) Watch(context.Context, chan<- []byte)                {}
 func (anchors) Run(context.Context) error                           { return nil }
 
@@ -232,9 +246,14 @@ func mkRenew(s renewScen) *mc.Exec {
 		src    x509svid.Source
 		dir    string
 		runRet bool
+		// trust anchors: generation counter, last bundle handed out, and the
+		// generation at the moment of the last successful certificate request
+		anchorGen        int
+		anchorLast       []byte
+		anchorGenAtFetch int
 	)
 	body := func() {
-		opts := spiffe.Options{Log: newLog(), TrustAnchors: anchors{}}
+		opts := spiffe.Options{Log: newLog(), TrustAnchors: anchors{&anchorGen, &anchorLast}}
 		if s.publish {
 			d, err := os.MkdirTemp(os.Getenv("VERIF_SCRATCH"), "c19-")
 			if err != nil {
@@ -278,6 +297,7 @@ func mkRenew(s renewScen) *mc.Exec {
 			rec.ok = true
 			rec.cert = issue(csr.PublicKey, t.Add(w.nbOff), t.Add(w.naOff))
 			log = append(log, rec)
+			anchorGenAtFetch = anchorGen
 			return []*x509.Certificate{rec.cert}, nil
 		}
 		sp = spiffe.New(opts)
@@ -359,7 +379,10 @@ func mkRenew(s renewScen) *mc.Exec {
 			return fmt.Errorf("final served SVID is not the last successfully fetched one (err=%v)", err)
 		}
 		if s.publish {
-			if msg := checkPublished(dir, cur, caPEM); msg != "" {
+			if anchorGen <= anchorGenAtFetch {
+				return fmt.Errorf("publication: the trust anchors were not read after the last successful fetch (generation %d at the request, %d now): ca.pem cannot be the current ones", anchorGenAtFetch, anchorGen)
+			}
+			if msg := checkPublished(dir, cur, anchorLast); msg != "" {
 				// (the scratch path is random: keep the message replayable)
 				return errors.New(strings.ReplaceAll(msg, dir, "<dir>"))
 			}
